@@ -34,7 +34,9 @@ def rtc_ok(ks):
 
 
 def ruby_ok(ks):
-  return any(ks == p[:len(ks)] for p in RUBY_PATTERNS)
+  """no children (a ruby under construction) or exactly one of the four patterns: a Ruby has no single-child push, so a proper
+  prefix of a pattern can only be what a rejected push_children left behind"""
+  return not ks or ks in RUBY_PATTERNS
 
 
 def children_by_links(e, limit=10000):
